@@ -351,7 +351,7 @@ func genCmplxsSpan(g *vlib.G) {
 						return
 					}
 					if dst[0] != l || dst[n-1] != u {
-						t.FailClass("span-endpoint-inexact", "cmplxs.Span(%d,%v,%v): first=%v last=%v, documented to be exactly l and u", n, l, u, dst[0], dst[n-1])
+						classed(t, "span-endpoint-inexact", fmt.Sprintf("l=%v u=%v", l, u), "cmplxs.Span(%d,%v,%v): first=%v last=%v, documented to be exactly l and u", n, l, u, dst[0], dst[n-1])
 					}
 				}
 			}
@@ -373,7 +373,7 @@ func genCmplxsSpan(g *vlib.G) {
 						}
 					}
 					if dst[0] != complex(l, 0) || dst[n-1] != complex(u, 0) {
-						t.FailClass("logspan-endpoint-inexact", "cmplxs.LogSpan(%d,%v,%v): first=%v last=%v, documented to be l and u", n, l, u, dst[0], dst[n-1])
+						classed(t, "logspan-endpoint-inexact", fmt.Sprintf("l=%v u=%v", l, u), "cmplxs.LogSpan(%d,%v,%v): first=%v last=%v, documented to be l and u", n, l, u, dst[0], dst[n-1])
 					}
 				}
 			}
